@@ -906,13 +906,17 @@ class CSemantics:
             expr = expressions.UnaryOperator(op, a, a.typ, False, location)
         elif op == "-":
             a = self.pointer(a)
+            # The integer promotions are performed on the operand, and
+            # the result has the promoted type:
+            a = self.promote(a)
             expr = expressions.UnaryOperator(op, a, a.typ, False, location)
         elif op == "~":
             a = self.pointer(a)
             self.ensure_integer(a)
+            a = self.promote(a)
             expr = expressions.UnaryOperator(op, a, a.typ, False, location)
         elif op == "+":
-            expr = self.pointer(a)
+            expr = self.promote(self.pointer(a))
         elif op == "*":
             a = self.pointer(a)
             if not a.typ.is_pointer:
